@@ -38,9 +38,13 @@ fn parse_keyword_characters<S: TexlangState>(
         // input ended, keyword does not match
         return Ok(false);
     };
-    if token.value() != token::Value::Letter(c.to_ascii_lowercase())
-        && token.value() != token::Value::Letter(c.to_ascii_uppercase())
-    {
+    // The case of the letter does not matter and neither does its category code (TeX.2021.407).
+    // Control sequences and active characters have no character and never match.
+    let matches = match token.char() {
+        Some(got) => got == c.to_ascii_lowercase() || got == c.to_ascii_uppercase(),
+        None => false,
+    };
+    if !matches {
         input.back(token);
         return Ok(false);
     }
